@@ -102,8 +102,14 @@ void bundle_t::delete_largest(const tensor_size_t count)
         m_alphas.slice(0, size()) = m_bundleE.slice(0, size());
         std::nth_element(m_alphas.begin(), m_alphas.begin() + (size() - count), m_alphas.begin() + size());
 
-        m_size = remove_if([&, thres = m_alphas(count) - epsilon0<scalar_t>()](const tensor_size_t i)
+        // NB: the pivot cannot be above the partition point, otherwise fewer than `count` points may be removed!
+        const auto pivot = std::min(count, size() - count);
+
+        m_size = remove_if([&, thres = m_alphas(pivot) - epsilon0<scalar_t>()](const tensor_size_t i)
                            { return m_bundleE(i) > thres; });
+
+        // NB: make sure both the aggregation and the next point fit (e.g. ties can keep too many points)!
+        m_size = std::min(m_size, capacity() - 3);
 
         append_aggregate();
     }
